@@ -247,9 +247,8 @@ impl<R: Round, const B: Word> FBig<R, B> {
         assert_finite(&self.repr);
         if self.repr.exponent >= 0 {
             return self.clone();
-        } else if self.repr.exponent + (self.repr.digits_ub() as isize) < -2 {
-            // to determine if the number rounds to zero, we need to make sure |self| < 0.5
-            // which is stricter than `self.repr.smaller_than_one()`
+        } else if self.repr.smaller_than_one() {
+            // `smaller_than_one()` holds only if |self| < 1 / B^2 <= 1/4, so the number rounds to zero
             return Self::ZERO;
         }
 
